@@ -32,7 +32,7 @@ def run(ctx):
         ctx.violation(v["key"], v["what"], v.get("replay"))
     log("[c07] pairs=%d (contradicting %d) classify=%d %s priority=%d random=%d" % (
         res["pairs"], res["pairs_contradicting"], res["classify_cases"], res["classes"], res["priority_rows"], res["random_pairs"]))
-    if res["pairs"] < 1000 or res["classify_cases"] < 100 or len(res["classes"]) < 6:
+    if not ctx.violations and (res["pairs"] < 1000 or res["classify_cases"] < 100 or len(res["classes"]) < 6):
         raise Inconclusive("truth tables incomplete: vacuous")
     # chain-level rule through the real liskbft.Module: IsHeaderContradictingChain probes in the BFT trace
     b2 = ctx.go_build("./cmd/c02")
